@@ -113,9 +113,42 @@ SPEC("pane.errors", "render.bounded", bounded=True,
               (lambda tree, result: all(cause_text(leaf) is None or cause_text(leaf) in result for _p, leaf in leaf_paths(tree)), ["C08"], "cause-message"),
               (lambda tree, result: all(not hasattr(leaf, "actual") or (str(leaf.actual) in result) or in_sum(tree, leaf) for _p, leaf in leaf_paths(tree)),
                ["C08"], "offending-value"),
+              # a union prints the offending value once, for the whole union - the value its (possibly nested) alternatives refused
+              (lambda tree, result: all(sum_actual(n) is NOVAL or ("Instead got `" + str(sum_actual(n)) + "`") in result for n in outer_sums(tree)),
+               ["C08"], "sum-offending-value"),
               (lambda tree, result: result == str(tree), ["C08"], "deterministic")],
      no_raise=["C08"],
      note="bounded: every error tree produced by the pool's converters on the pool's values")
+
+NOVAL = ("no value",)
+
+
+def sum_actual(n):
+    """the offending value a sum node stands for: that of its first alternative that carries one (alternatives that are sums are searched)"""
+    import pane.errors as E
+    for c in n.children:
+        if isinstance(c, E.SumErrorNode):
+            v = sum_actual(c)
+            if v is not NOVAL:
+                return v
+        elif hasattr(c, "actual"):
+            return c.actual
+    return NOVAL
+
+
+def outer_sums(node, inside=False):
+    import pane.errors as E
+    if isinstance(node, E.SumErrorNode):
+        out = [] if inside else [node]
+        for c in node.children:
+            out += outer_sums(c, True)
+        return out
+    if isinstance(node, E.ProductErrorNode):
+        out = []
+        for c in node.children.values():
+            out += outer_sums(c, False)
+        return out
+    return []
 
 
 def in_sum(tree, leaf):
